@@ -1180,6 +1180,9 @@ static void gen_case(Rng& rng, std::string const& id, unsigned nops, bool c15, u
     case 3: kind = "size-json"; nonmono = false; c.sinkk = 'J'; break;
     case 4: kind = "size-fa"; nonmono = false; { char const f[] = {'D', 'D', 'T', 'C'}; c.fa = rng.pick(f); } break;
     case 5: kind = "size-resch"; nonmono = false; break;
+    // size limit AND a time schedule on one sink, statements at the rotation points ± 1 ns (the statement that triggers a
+    // time rotation must be counted in the new file's size)
+    case 6: kind = "size-time"; nonmono = false; want_time = true; tz = "UTC"; break;
     default: break;
     }
   }
@@ -1289,7 +1292,8 @@ int main(int argc, char** argv)
       unsigned variant = 0;
       if (!c15)
       {
-        if (i % 9 == 2 || i % 9 == 7) variant = 1;
+        if (i % 9 == 0) variant = 6;
+        else if (i % 9 == 2 || i % 9 == 7) variant = 1;
         else if (i % 9 == 4) variant = 2;
         else if (i % 9 == 6) variant = 3 + (i / 9) % 3;
       }
